@@ -101,6 +101,14 @@ def run_cfg(check, cfg, golden=None):
     """Run one execution and evaluate the check's oracle. Returns (world, ix, violations)."""
     from dexsim.driver import run_execution
 
+    if golden is None and getattr(check, "needs_golden", False) and cfg.get("faults"):
+        # replay / minimisation: run the fault-free execution first, in the same process, exactly as the batch does
+        g = dict(cfg)
+        g["faults"] = []
+        g.pop("choices", None)
+        wg = run_execution(g)
+        golden = {"final": oracles.final_outcome(wg), "stats": golden_stats(wg)}
+        golden.update(check.golden_info(wg, oracles.Index(wg)))
     w = run_execution(cfg)
     for i in w.invocations:
         if str(i["outcome"]).startswith("harness"):
@@ -127,8 +135,10 @@ def run_case(check_id, seed_i, tier):
            "switches": 0, "vtime": 0.0, "invocations": 0, "threads": 0, "line_events": 0, "sample": None,
            "outcomes": {}}
     cfg = check.make_cfg(seed_i, prof)
+    history = []
     w, ix, vs = run_cfg(check, cfg, None)
-    _account(res, check, cfg, w, ix, vs)
+    _account(res, check, cfg, w, ix, vs, history)
+    history.append(strip_private(attach_choices(cfg, w)))
     st = golden_stats(w)
     golden_final = oracles.final_outcome(w)
     ginfo = check.golden_info(w, ix)
@@ -140,11 +150,13 @@ def run_case(check_id, seed_i, tier):
         g2 = {"final": golden_final, "stats": st}
         g2.update(ginfo)
         w2, ix2, vs2 = run_cfg(check, c2, g2)
-        _account(res, check, c2, w2, ix2, vs2)
+        _account(res, check, c2, w2, ix2, vs2, history)
+        if len(history) < 6:
+            history.append(strip_private(attach_choices(c2, w2)))
     return res
 
 
-def _account(res, check, cfg, w, ix, vs):
+def _account(res, check, cfg, w, ix, vs, history=()):
     res["evals"] += 1
     nt = bool(check.nontrivial(w, ix, cfg))
     res["sigs"].append((signature(cfg, w), nt))
@@ -168,7 +180,7 @@ def _account(res, check, cfg, w, ix, vs):
                          "sched": cfg.get("sched"), "outcomes": [i["outcome"] for i in w.invocations],
                          "final": (w.final or {}).get("status")}
     for v in vs:
-        res["violations"].append({"v": v, "cfg": attach_choices(cfg, w)})
+        res["violations"].append({"v": v, "cfg": attach_choices(cfg, w), "prelude": list(history)})
 
 
 def _worker(args):
@@ -190,13 +202,20 @@ def strip_private(cfg):
     return c
 
 
-def replay_cfg(check_id, cfg):
-    """Re-run a cfg (explicit choices if present) and return violations of the check."""
+def replay_cfg(check_id, cfg, prelude=None):
+    """Re-run a cfg (explicit choices if present) and return violations of the check.
+
+    `prelude` is the list of executions that ran earlier in the same process when the violation was found;
+    it matters only if the code under test keeps process-global state (a module-level cache, say)."""
     from dexsim import checks
 
     check = checks.CHECKS[check_id]
     if check.component:
         return check.component_replay(cfg)
+    if prelude:
+        from dexsim.driver import run_execution
+        for pc in prelude:
+            run_execution(strip_private(pc))
     golden = cfg.get("_golden")
     w, ix, vs = run_cfg(check, strip_private(cfg), golden)
     return vs
@@ -299,12 +318,17 @@ def minimise(check_id, cfg, want, budget=120, deadline=None):
     return best, tries
 
 
-def write_replay(check_id, seed_i, cfg, v):
+def write_replay(check_id, seed_i, cfg, v, prelude=None):
     os.makedirs(REPLAYS, exist_ok=True)
     path = os.path.join(REPLAYS, f"{check_id}-{seed_i}-{v['cls'].replace(':', '_')}.json")
+    doc = {"property": check_id, "seed": seed_i, "violation": {"prop": v["prop"], "cls": v["cls"], "msg": v["msg"]},
+           "cfg": strip_private(cfg)}
+    if prelude:
+        doc["prelude"] = prelude
+        doc["note"] = ("not minimised: the violation depends on state the code under test keeps in the process between executions; "
+                       "the prelude executions are re-run first, in the same process")
     with open(path, "w") as f:
-        json.dump({"property": check_id, "seed": seed_i, "violation": {"prop": v["prop"], "cls": v["cls"], "msg": v["msg"]},
-                   "cfg": strip_private(cfg)}, f, indent=1, default=str)
+        json.dump(doc, f, indent=1, default=str)
     return path
 
 
@@ -433,11 +457,27 @@ def finish(check_id, check, tier, seed, t0, agg, samples, raw_violations, errors
             if hit is None:
                 cfg_min = strip_private(cfg)
                 hit = same_violation(replay_cfg(check_id, cfg_min), want)
+            if hit is None and rv.get("prelude"):
+                path = write_replay(check_id, rv["seed"], cfg, rv["v"], prelude=rv["prelude"])
+                okc, outp = confirm_replay(path)
+                if okc:
+                    lines.append(f"VIOLATION property={check_id} replay={path}")
+                    lines.append(f"  class={cls} seed={rv['seed']} occurrences={len(rvs)} minimise_replays=not-minimised(process-global state)")
+                    lines.append(f"  {rv['v']['msg']}")
+                    reported.append({"cls": cls, "replay": path, "msg": rv["v"]["msg"], "occurrences": len(rvs)})
+                    exit_code = 1
+                    continue
             if hit is None:
                 harness_msgs.append(f"violation {prop}:{cls} (seed {rv['seed']}) did not reproduce in-process: {rv['v']['msg']}")
                 continue
             path = write_replay(check_id, rv["seed"], cfg_min, hit)
             okc, outp = confirm_replay(path)
+            if not okc and rv.get("prelude"):
+                # process-global state in the code under test: replay the unminimised execution after its prelude
+                path = write_replay(check_id, rv["seed"], cfg, rv["v"], prelude=rv["prelude"])
+                okc, outp = confirm_replay(path)
+                hit = rv["v"]
+                tries = -1
             if not okc:
                 harness_msgs.append(f"violation {prop}:{cls} did not replay in a fresh interpreter from {path}: {outp[-400:]}")
                 continue
